@@ -319,7 +319,7 @@ def cells(tier):
     cs.append(Cell(M, "h_prefix", dict(shape=dict(freq=3, interval=200, span=2, K=4), m0=6, d0=1, tod=[0, 0, 0], years=[9998, 9999]),
                    name="prefix[MAXYEAR stop, daily]", budget_s=300, per_path_s=60))
     for base in ((24,) if q else (24, 60)):
-        cs.append(Cell(M, "h_mod_distance", dict(base=base), budget_s=400 if q else 3000, per_path_s=30))
+        cs.append(Cell(M, "h_mod_distance", dict(base=base), budget_s=400 if q else 1200, per_path_s=30))
     for base in (24, 60):
         cs.append(Cell(M, "h_construct_byset", dict(base=base), budget_s=300 if q else 1500, per_path_s=30))
     for f in ((0, 1, 3) if q else range(7)):
